@@ -19,6 +19,7 @@ for n in $names; do
   pkg="fastrace@0.7.9"; tdir=fastrace/tests
   grep -q -- "-p fastrace-jaeger" $d/run_demo.sh 2>/dev/null && { pkg=fastrace-jaeger; tdir=fastrace-jaeger/tests; }
   grep -q -- "-p fastrace-futures" $d/run_demo.sh 2>/dev/null && { pkg=fastrace-futures; tdir=fastrace-futures/tests; }
+  grep -q -- "-p test-statically-disable" $d/run_demo.sh 2>/dev/null && { pkg=test-statically-disable; tdir=test-statically-disable/tests; }
   grep -q -- "-p fastrace-datadog" $d/run_demo.sh 2>/dev/null && { pkg=fastrace-datadog; tdir=fastrace-datadog/tests; }
   grep -q -- "fastrace-opentelemetry" $d/run_demo.sh 2>/dev/null && { pkg=fastrace-opentelemetry; tdir=fastrace-opentelemetry/tests; }
   if [ -f $d/demo.diff ] && grep -q "test-statically-disable" $d/demo.diff; then
